@@ -357,11 +357,25 @@ impl StateRead for SimState {
 
 /// S2: program store.
 #[derive(Clone)]
-pub struct SimPrograms(pub Arc<HashMap<ContentAddress, Arc<Program>>>);
+pub struct SimPrograms(pub Arc<HashMap<ContentAddress, Arc<Program>>>, pub Option<Arc<FlakyProgram>>);
+
+/// A store that does not answer consistently: every second lookup of `addr` returns `alt`
+/// (a store that was updated in between, a cache that serves a stale entry).
+pub struct FlakyProgram {
+    pub addr: ContentAddress,
+    pub alt: Arc<Program>,
+    pub lookups: std::sync::atomic::AtomicU64,
+}
+
 impl GetProgram for SimPrograms {
     fn get_program(&self, ca: &ContentAddress) -> Arc<Program> {
         rayon::sim::switch_point();
         events::push(Ev::Fetch { program: ca.0 });
+        if let Some(f) = &self.1 {
+            if f.addr == *ca && f.lookups.fetch_add(1, std::sync::atomic::Ordering::Relaxed) % 2 == 1 {
+                return f.alt.clone();
+            }
+        }
         self.0
             .get(ca)
             .cloned()
